@@ -5,7 +5,7 @@ CFG = dict(
     level_text='Proved for all rules and databases: C02_join_order_irrelevant (the positive atoms of a rule body can be evaluated in any order: same answers — the Datalog-level content of join planning) and C02_any_dependency_order_partial (any two dependency-respecting evaluation orders agree), on top of C01 (all switches off = perfect model). The passes as implemented are validated, not modelled: every generated program/EDB is executed under 9 (quick) or all 32 (thorough) OptimizationConfig combinations and all answers must be equal as sets (oracle), and the all-off answer must equal the strategy model (correspondence). IR-level preservation of the rewrite passes is C05.',
     level_note='Trusted: Coq kernel; hand-written Gallina model of clause semantics and of the engine strategy (Model/Datalog.v) — IRBuilder, the optimizer passes and Differential Dataflow are validated by the correspondence, not derived; harness printers.',
     corr_name='eval_engine vs IQLEngine(all off)',
-    rule='shape-first program generator (1-4 derived heads + query, self recursion, 2-cycles, negation, comparisons, integer arithmetic, wildcards, constants, string column) x EDBs over a 3-5 value domain, plus a hand-written corpus x configurations {none, all, each single switch, 2 random}; thorough: all 32; non-trivial = non-empty answer',
+    rule='shape-first program generator (1-4 derived heads + query, self recursion, 2-cycles, negation, comparisons, integer arithmetic, wildcards, constants, string column) x EDBs over a 3-5 value domain, plus a hand-written corpus and targeted families: shared-subplan, bound-recursive query (`__query__` head, Magic Sets shape), negated relation defined later in the text, recursive answer relation, multi-key joins with permuted key order, union of projections, two-clause query heads, shuffled rule order x configurations {none, all, each single switch, 2 random}; thorough: all 32; non-trivial = non-empty answer',
     trusted_base=['IQLEngine public API (with_config, add_tuples, set_max_result_rows, execute_tuples)', 'Handler::query_program / validate_rules_stratification for C34'],
     assumptions=['values in generated programs are Int64 and strings; comparisons other than =/!= only between integers'],
 )
